@@ -12,6 +12,7 @@ from __future__ import annotations
 import hashlib
 import json
 import math
+import traceback
 import warnings
 
 import numpy as np
@@ -113,12 +114,27 @@ def check_case(ctx, model, case, run_oracle=False):
     fam = case["fam"]
     with warnings.catch_warnings():
         warnings.simplefilter("ignore")
-        impl = pc.Impl(case)
-        if not impl.has_prox():
+        v = pc.flat_value(case, "v")
+        try:
+            impl = pc.Impl(case)
+            hp = impl.has_prox()
+            p_impl = np.asarray(impl.prox_flat(v)) if hp else None
+        except common.Infra:
+            raise
+        except Exception as e:  # noqa: BLE001
+            if not _raised_in_scico(e):
+                raise
+            # the real code rejects a configuration the model covers (the property promises a minimiser there)
+            ctx.count(f"impl-raised:{fam}:{type(e).__name__}")
+            ctx.case(_desc(case), _key(case))
+            ctx.violation({"kind": "failing-input", "op": f"prox.{fam}", "case": _public(case),
+                           "failing": {"reason": "the implementation raised on a configuration that advertises an exact prox",
+                                       "exception": f"{type(e).__name__}: {str(e)[:300]}"}},
+                          True, f"prox.{fam}: implementation raised {type(e).__name__}")
+            return False
+        if not hp:
             ctx.disagree("prox.has_prox", _public(case), False, True, note="class advertises no prox for a configuration the model covers")
             return False
-        v = pc.flat_value(case, "v")
-        p_impl = np.asarray(impl.prox_flat(v))
         p_model, margin = pc.model_eval(model, case, impl)
     cplx = bool(case.get("cplx"))
     n = v.size
@@ -156,10 +172,29 @@ def check_case(ctx, model, case, run_oracle=False):
     ok = p_impl.shape == p_model.shape and common.allclose(np.real(p_impl), np.real(p_model), k=max(n, 1), rtol=rtol) and (
         not cplx or common.allclose(np.imag(p_impl), np.imag(p_model), k=max(n, 1), rtol=rtol)
     )
+    if case.get("_branch"):
+        ctx.count(f"model-branch:{fam}:{case['_branch']}")
+    if fam == "nuclear" and "_svd" in case:
+        ctx.count("svd-contract-checked")
+        if case["_svd"]:
+            ctx.disagree("prox.nuclear.svd-contract", _public(case), case["_svd"], "orthonormal U, Vh; s >= 0; U diag(s) Vh = v",
+                         oracle=make_oracle(ctx.seed, p_model))
+            return False
     if fam == "sql2sqabs":
         cub = case.get("_cubic")
         w = np.asarray(case["w"]) if case.get("w") is not None else np.ones(n)
-        bad = pc.cubic_relation_ok(cub["p"], cub["q"], cub["r"], (float(case["lam"]) * 4 * case["_scale"] * w) > 0)
+        apos = (float(case["lam"]) * 4 * case["_scale"] * w) > 0
+        rc, rmod = np.asarray(cub["r"]), np.asarray(cub["r_model"])
+        for b, ap in zip(cub["branch"], apos):
+            ctx.count(f"model-branch:cubic:{b if ap else 'alpha=0'}")
+        # the model of `_dep_cubic_root` against the code's root (float64, every entry with alpha > 0)
+        if np.any(apos) and not common.allclose(rc[apos], rmod[apos], k=1, rtol=1e-9):
+            ctx.count("disagree:cubic-root")
+            ctx.disagree("prox.sql2sqabs.cubic_root", _public(case), rc.tolist(), rmod.tolist(), oracle=make_oracle(ctx.seed, p_model),
+                         note="loss._dep_cubic_root differs from the model depCubicRoot")
+            return False
+        # independent check of the relation of C02_cubic_root on the code's root (numpy.roots)
+        bad = pc.cubic_relation_ok(cub["p"], cub["q"], cub["r"], apos)
         if bad:
             ctx.count("cubic-relation-violated")
             ctx.disagree("prox.sql2sqabs.root-relation", _public(case), [list(map(float, b[2:])) for b in bad], "r>=0, r^3+pr+q=0, r=0 only if p>=0",
@@ -170,9 +205,35 @@ def check_case(ctx, model, case, run_oracle=False):
         ctx.disagree(f"prox.{fam}", _public(case), pc._js(p_impl), pc._js(p_model), oracle=make_oracle(ctx.seed, p_model),
                      note=f"margin={margin}")
         return False
+    if impl.f_orig is not None and case["params"].get("rescale"):
+        # history: `c*L`, `L/c` return copies - the ORIGINAL object must still compute the prox at ITS scale (`scaleOfOriginal`)
+        c0 = {k: val for k, val in case.items() if not k.startswith("_")}
+        P0 = dict(case["params"])
+        P0["scale"] = pc.orig_scale(model, case["params"])
+        P0["rescale"] = []
+        c0["params"] = P0
+        with warnings.catch_warnings():
+            warnings.simplefilter("ignore")
+            q_impl = np.asarray(impl.prox_flat_orig(v))
+            q_model, _ = pc.model_eval(model, c0)
+        ctx.count("loss-original-object-rechecked")
+        ok0 = q_impl.shape == q_model.shape and common.allclose(np.real(q_impl), np.real(q_model), k=max(n, 1), rtol=rtol) and (
+            not cplx or common.allclose(np.imag(q_impl), np.imag(q_model), k=max(n, 1), rtol=rtol))
+        if not ok0:
+            ctx.count(f"disagree:{fam}:original-object")
+            ctx.disagree(f"prox.{fam}.original-after-rescale", _public(c0), pc._js(q_impl), pc._js(q_model),
+                         oracle=make_oracle(ctx.seed, q_model),
+                         note=f"the loss object the rescalings {case['params']['rescale']} were derived from no longer computes its own prox")
+            return False
     if run_oracle:
         run_oracle_case(ctx, case, p_model)
     return True
+
+
+def _raised_in_scico(e):
+    """the exception comes out of the code under test (not out of the harness)"""
+    frames = traceback.extract_tb(e.__traceback__)
+    return any("/scico/" in (fr.filename or "") for fr in frames)
 
 
 def run_oracle_case(ctx, case, p_model=None):
@@ -249,8 +310,72 @@ def correspond(ctx, model):
             check_case(ctx, model, case, run_oracle=(i % every == 0))
             if len(ctx.violations) >= 5:
                 return
-    # 3. block input of L1MinusL2Norm is rejected by snp.max (C13 finding; recorded in the distribution only)
+    # 3. which constructions advertise a prox / are rejected (exhaustive over the small configuration space)
+    guard_cases(ctx, model)
+    # 4. block input of L1MinusL2Norm is rejected by snp.max (C13 finding; recorded in the distribution only)
     ctx.count("not-exercised:l1l2-block-input(C13)")
+
+
+GUARD_W = ["none", "diag_nonneg", "diag_negative", "not_diagonal"]
+GUARD_A = ["none", "identity", "diagonal", "other_linop", "nonlinear"]
+
+
+def _guard_observe(cls, wk, ak, ynonneg):
+    """build the real loss for one configuration; returns (observed kind, object or None)"""
+    import scico.numpy as snp
+    from scico import linop, loss, operator
+
+    y = snp.array(np.array([1.0, 0.5] if ynonneg else [1.0, -0.5]))
+    W = {"none": None, "diag_nonneg": linop.Diagonal(snp.array(np.array([1.5, 0.0]))),
+         "diag_negative": linop.Diagonal(snp.array(np.array([1.0, -0.25]))), "not_diagonal": np.array([1.0, 1.0])}[wk]
+    A = {"none": None, "identity": linop.Identity((2,), input_dtype=np.float64),
+         "diagonal": linop.Diagonal(snp.array(np.array([2.0, -1.0]))),
+         "other_linop": linop.MatrixOperator(snp.array(np.array([[1.0, 2.0], [0.0, 1.0]]))),
+         "nonlinear": operator.Abs((2,), input_dtype=np.float64)}[ak]
+    C = {"sql2loss": loss.SquaredL2Loss, "sql2abs": loss.SquaredL2AbsLoss, "sql2sqabs": loss.SquaredL2SquaredAbsLoss}[cls]
+    try:
+        L = C(y=y, A=A, scale=0.5, W=W)
+    except ValueError:
+        return "value", None
+    except TypeError:
+        return "type", None
+    if not L.has_prox:
+        try:
+            L.prox(snp.array(np.array([0.5, -2.0])), 1.0)
+        except NotImplementedError:
+            return "no_prox", L
+        return "no_prox-but-prox-returns", L
+    return "has_prox", L
+
+
+def guard_cases(ctx, model):
+    """`has_prox` / rejection logic of SquaredL2Loss, SquaredL2AbsLoss, SquaredL2SquaredAbsLoss against the model
+    (`sqL2LossGuard`, `absLossGuard`; theorems C02_guard_abs, C02_guard_sqL2): every (W kind, A kind, sign of y)."""
+    for cls in ("sql2loss", "sql2abs", "sql2sqabs"):
+        for wk in GUARD_W:
+            for ak in GUARD_A:
+                for yn in (1, 0):
+                    with warnings.catch_warnings():
+                        warnings.simplefilter("ignore")
+                        obs, L = _guard_observe(cls, wk, ak, bool(yn))
+                    g = model.call("guard", cls=cls, w=wk, a=ak, ynonneg=yn)["guard"]
+                    exp = "has_prox" if g.startswith("has_prox") else g
+                    desc = {"fam": "guard", "cls": cls, "W": wk, "A": ak, "y_nonneg": bool(yn)}
+                    ctx.count(f"guard:{cls}:{g}")
+                    ctx.case(desc, f"guard-{cls}-{wk}-{ak}-{yn}")
+                    if obs == exp:
+                        continue
+                    ctx.count(f"disagree:guard:{cls}")
+                    orc = None
+                    if obs == "has_prox" and ak in ("none", "identity") and wk in ("none", "diag_nonneg"):
+                        # a prox is advertised where the model says there is none (e.g. negative data): evaluate the property there
+                        c = {"fam": cls, "params": {"scale": 0.5, "A": ak, "rescale": []}, "shape": [2], "blocks": None, "cplx": False,
+                             "dtype": "float64", "lam": 1.0, "v": [0.5, -2.0], "y": [1.0, 0.5] if yn else [1.0, -0.5],
+                             "w": None if wk == "none" else [1.5, 0.0]}
+                        orc = lambda _c, c=c: make_oracle(ctx.seed)(c)  # noqa: E731
+                        desc = dict(desc, prox_case=c)
+                    ctx.disagree(f"prox.guard.{cls}", desc, obs, g, oracle=orc,
+                                 note="has_prox / constructor rejection differs from the model")
 
 
 def findings(ctx, model):
